@@ -233,9 +233,13 @@ def predicate(case, obs):
                 if c == 'O' and not matches_some(obs, path, files.get(path, [None] * nrep)[i]):
                     bad.append({'clause': 'replica-taken-as-correct', 'path': path, 'replica': i + 1, 'row': row,
                                 'recorded': recorded(obs, path)})
-    if obs['rows'] is not None and obs['exit'] == 0:
-        # exit status 0: no path contributed, so every row marked hash-correct is covered by (1) above
-        pass
+    if obs['exit'] == 0:
+        # (1') exit status 0 = no path contributed an error, with or without --report: every written file for which the
+        # database records hashes matches them
+        for path in sorted(out):
+            if recorded(obs, path) and not matches_some(obs, path, out[path]):
+                bad.append({'clause': 'exit-0-but-output-mismatches-database', 'path': path, 'report': bool(case.get('report')),
+                            'output_hashes': H(out[path]), 'recorded': recorded(obs, path)})
     # (3) damaged first replica, and a vote or another replica would have restored the file => restored
     for path, cs in files.items():
         holders = [c for c in cs if c is not None]
